@@ -69,6 +69,9 @@ MUTANTS = [
      "            data = a[hdu_index].section[cube_index, 0,", "C20-R5"),
     ("raw values divided by BSCALE", "AegeanTools/fits_tools.py",
      "        data *= header['BSCALE']", "        data /= header['BSCALE']", "C20-R6"),
+    ("expanded images are memoised (seed C20d)", "AegeanTools/fits_tools.py",
+     "def expand(datafile, outfile=None):",
+     "import functools\n\n\n@functools.lru_cache(maxsize=4)\ndef expand(datafile, outfile=None):", "C20-R7"),
 ]
 TWINS = [
     ("explicit floor division helper", "AegeanTools/fits_tools.py",
@@ -370,6 +373,7 @@ def run(ctx):
                   node=s)
     r5_planes(ctx, prog)
     r6_bscale(ctx, prog, fi)
+    r7_fresh(ctx, prog)
 
 
 def _sliced_by(fnode, e, lo, hi, depth=0):
@@ -481,3 +485,37 @@ def r6_bscale(ctx, prog, fi):
               "must be MULTIPLIED by BSCALE once (found %s)" %
               [norm(s_, 50) for s_, _ in ups], node=ups[0][0] if ups
               else fi.node)
+
+
+def r7_fresh(ctx, prog):
+    """each call works on objects of its own: nothing on the way is memoised"""
+    from .. import callgraph
+    from ..core import PKG
+    ctx.rule("C20-R7", "no state is shared between calls: load_image_band "
+             "adjusts the header it returns IN PLACE, so every function it "
+             "obtains data or header from (expand, load_file_or_hdu, ...) "
+             "must build fresh objects on every call -- no lru_cache / cache "
+             "decorator, no module-level store written through `global`")
+    g = callgraph.build(prog)
+    root = PKG + ".fits_tools.load_image_band"
+    reach = callgraph.reachable(g, [root])
+    n = 0
+    for q in sorted(reach):
+        fi = prog.functions[q]
+        if not fi.module.endswith("fits_tools"):
+            continue
+        n += 1
+        memo = [norm(d) for d in fi.node.decorator_list
+                if any(k in norm(d) for k in ("lru_cache", "cache",
+                                              "memoize", "memoise"))]
+        glob = [norm(x) for x in walk_no_nested(fi.node)
+                if isinstance(x, (ast.Global, ast.Nonlocal))]
+        ctx.check("C20-R7", fi, "%s builds fresh objects" % fi.short,
+                  not memo and not glob,
+                  "%s is memoised / keeps module state (%s): the header that "
+                  "load_image_band shrinks for one band is handed out again "
+                  "for the next, so later bands are cut from a header that "
+                  "no longer describes the full image" %
+                  (fi.short, memo + glob), node=fi.node)
+    ctx.floor("C20-R7", n, 2, "fits_tools functions reachable from "
+              "load_image_band")
